@@ -1,5 +1,6 @@
 import WfProofs.TimersReload
 import WfProofs.TimersStuck
+import WfProofs.TimersPartial
 /-!
 # C14 — pending retries and waiter timeouts across idle release and restart
 
@@ -267,6 +268,84 @@ theorem C14_waiter_timeout_lost_forever (acts : List SAct) (ha : ∀ a ∈ acts,
     rcases List.mem_append.mp hm with hm | hm
     · revert hm; decide
     · have := ht _ hm; revert this; decide
+
+/-! ## the part that holds -/
+
+theorem C14.cut_persisted (c : SrvCfg) (pol : Policy) (s : Srv) (r : Runner) (hl : s.live = some r) (cut : SAct)
+    (hcut : cut.isCut = true) (hoff : (s.step c pol cut).live = none) :
+    (s.step c pol cut).persisted = s.persisted ∧ (s.step c pol cut).status = s.status ∧
+      (s.step c pol cut).idleSince = s.idleSince := by
+  cases cut with
+  | release =>
+    simp only [Srv.step, hl] at hoff ⊢
+    cases hi : s.idleSince with
+    | none => simp [hi, hl] at hoff
+    | some t0 =>
+      simp only [hi] at hoff ⊢
+      split
+      · simp [Srv.persisted]
+      · rename_i hlt; simp [hlt, hl] at hoff
+  | restart => simp [Srv.step, Srv.persisted]
+  | run a => simp [SAct.isCut] at hcut
+  | send t => simp [SAct.isCut] at hcut
+  | resume => simp [SAct.isCut] at hcut
+
+/-- **C14, the part that holds**: take any schedule of a run's first control loop (steps, worker
+results, mailbox traffic, timers, time) after which **no retry and no waiter timeout is pending**,
+the run is still going, and every logged tick is persisted as it is (no waiter requirements — those
+are not written).  If the run then leaves memory — idle release or process stop — reloading it, at
+any later clock, yields exactly the live reducer state written by `to_serialized`, read back and
+restarted (`Runner.init (roundtrip live.st)`): every queued and in-progress invocation is queued or
+started again, buffers and waiters are kept (C12), no exit command is remembered (the handler is not
+finalised), and the reloaded heap holds the same retry / waiter timers as the live one: none.  The
+policy must not look at elapsed time (`TimeIndep`), because the replay runs at the clock of the
+reload. -/
+theorem C14_partial (c : SrvCfg) (pol : Policy) (hp : TimeIndep pol) (start : Ev) (racts : List Act)
+    (cut : SAct) (hcut : cut.isCut = true) :
+    let s := Srv.run c pol (Srv.start c start) (racts.map SAct.run)
+    ∀ r, s.live = some r →
+      s.pendingTimers = [] →
+      r.outcome = none → r.st.isRunning = true → r.log ≠ [] → (∀ p ∈ r.log, p.1.persist = p.1) →
+      (s.step c pol cut).live = none →
+      ∀ now, ∃ r', reload c pol (s.step c pol cut).persisted now = .ok r' none ∧
+        r' = Runner.init c.cfg (roundtrip c.cfg r.st) now none c.timeout ∧
+        r'.heap.filter (fun t => t.tick.isRetryOrWaiterTimer) = s.pendingTimers ∧
+        r'.mailbox = [] ∧ (s.step c pol cut).status = s.status := by
+  intro s r hl hpend hout hrun hne hper hoff now
+  obtain ⟨hlive, hstore⟩ := srv_run_first c pol racts (Srv.start c start) _ rfl rfl
+  have hr : r = Runner.run c.cfg pol (Runner.init c.cfg initState 0 (some start) c.timeout) racts := by
+    have : some r = some (Runner.run c.cfg pol (Runner.init c.cfg initState 0 (some start) c.timeout) racts) := by
+      rw [← hl]; exact hlive
+    exact Option.some.inj this
+  obtain ⟨hp1, hp2, _⟩ := C14.cut_persisted c pol s r hl cut hcut hoff
+  have hpers : s.persisted = r.log.map (fun p => p.1.persist) := by
+    simp only [Srv.persisted, hl]
+    have : s.store = [] := hstore
+    simp [this]
+  have hrel := reload_of_live c hp start 0 racts now
+  simp only [← hr] at hrel
+  have hrel' := hrel hout hrun hne hper
+  refine ⟨_, by rw [hp1, hpers]; exact hrel', rfl, ?_, init_mailbox _ _ _ _ _, hp2⟩
+  rw [hpend]
+  apply List.filter_eq_nil_iff.mpr
+  intro tm htm
+  simp [init_heap_no_retry_or_waiter _ _ _ _ _ tm htm]
+
+/-- non-vacuity of `C14_partial`: a two-step workflow whose first step has finished; its output
+event is in the second step's in-progress table and a worker runs it (no timer pending apart from
+the 45 s workflow timeout); the process stops; server start reloads the run and starts that
+invocation again, with the workflow timeout armed from scratch -/
+def C14.cfg2 : Cfg := { steps := [{ name := 0, accepted := [0], numWorkers := 1, hasRetry := false },
+                                  { name := 1, accepted := [5], numWorkers := 1, hasRetry := false }] }
+def C14.srv2 : SrvCfg := { cfg := C14.cfg2, timeout := some 45, idleTimeout := 1 }
+def C14.s2 : Srv := Srv.run C14.srv2 C14.polW (Srv.start C14.srv2 C14.startEv)
+  ([.drain, .workerDone 0 0 [.result (some { ty := 5, kind := .plain, uid := 2 })], .drain, .drain].map SAct.run)
+def C14.s2' : Srv := (C14.s2.step C14.srv2 C14.polW .restart).step C14.srv2 C14.polW .resume
+example : C14.s2.pendingTimers = [] := by decide
+example : C14.s2.live.map (fun r => (r.outcome.isNone, r.st.isRunning, r.log.length, r.running.length)) =
+    some (true, true, 3, 1) := by decide
+example : C14.s2'.live.map (fun r => (r.running.map (fun w => w.step), r.heap.map (fun t => t.at_),
+      (r.st.workers 1).inProg.map (fun i => i.ev.uid))) = some ([1], [45], [2]) := by decide
 
 /-! ## non-vacuity of the witnesses: what the model computes at the cut -/
 
